@@ -98,6 +98,31 @@ for _k, _v in ROUND9.items():
     _c = CHECKS[_k]
     CHECKS[_k] = (_c[0], _c[1], _c[2] + " " + _v, _c[3], _c[4])
 
+# additions of the tenth seeding round (DESIGN.md section 12, Round 10)
+ROUND10 = {
+ "C01": "Message mutants on parser-made messages (fields replaced by assignment); relocated digests.",
+ "C02": "A leaf issued directly by the trusted root with the genuine intermediate carried; two authorities of one name and key identifier in a bundle.",
+ "C04": "Near misses of the status UpToDate; returned extension values overwritten by the caller before the judged call.",
+ "C05": "Leaves sharing their serial with a certificate of the root; returned chain certificates changed by the caller.",
+ "C06": "Windows starting centuries before their end; document dates with numeric offsets.",
+ "C07": "A 32-bit companion for QE levels above 2^31; messages sharing one buffer whose authentication data mirrors the bytes behind the key.",
+ "C08": "Expectations in another byte order; allow-list-only policies naming a value twice, converted twice.",
+ "C09": "Text encodings of quotes; 16-bit content fields at every boundary value.",
+ "C10": "Announced lengths up to 2^63-1; inputs made of very many parts within 60 s.",
+ "C11": "Time sets and document dates in other zones; members added later.",
+ "C12": "Signature-less repeats after a good download; relation-only worlds.",
+ "C13": "Right-sized values that look like DER; results overwritten by the caller.",
+ "C15": "OutLen inside a quote; concurrent providers asked for the same report data.",
+ "C16": "Vendor IDs in GUID byte order; module versions without identity in the concurrent rounds.",
+ "C17": "Digests that mean something.",
+ "C18": "Future-dated CRL entries; an unsigned twin supplying what the signed TCB Info omits.",
+ "C19": "Forged and re-signed quotes through the tool; the rtmrs flag over a config list.",
+ "C20": "A real-time watchdog around every virtual-clock case; sub-millisecond delays; negative timeouts.",
+}
+for _k, _v in ROUND10.items():
+    _c = CHECKS[_k]
+    CHECKS[_k] = (_c[0], _c[1], _c[2] + " " + _v, _c[3], _c[4])
+
 BUILT_FILE = os.path.join(os.path.dirname(__file__), "built.txt")
 
 
